@@ -257,9 +257,10 @@ PROPS["C13"] = {
     "patterns": ["./c13"],
     "level": "model_checking",
     "quick": [J(c13 + "DListOps", init=2, ops=3, covers=["list copied onto itself"]), J(c13 + "SListOps", init=3, ops=3)],
-    "thorough": [J(c13 + "DListOps", init=2, ops=4, covers=["list copied onto itself"], cfg={"MaxPaths": 60000000}), J(c13 + "SListOps", init=3, ops=4, cfg={"MaxPaths": 60000000})],
+    "thorough": [J(c13 + "SListOps", init=4, ops=3, cfg={"MaxPaths": 60000000}), J(c13 + "DListOps", init=3, ops=3, covers=["list copied onto itself"], cfg={"MaxPaths": 60000000}),
+                 J(c13 + "DListOps", init=2, ops=4, covers=["list copied onto itself"], cfg={"MaxPaths": 60000000}), J(c13 + "SListOps", init=3, ops=4, cfg={"MaxPaths": 60000000})],
     "bounds": {"quick": "DList (zero value and NewDoubly): 0..2 initial elements, then 3 arbitrary operations out of PushFront/PushBack/InsertBefore/InsertAfter/Remove/MoveToFront/MoveToBack/MoveBefore/MoveAfter/PushBackDList/PushFrontDList (self and foreign)/node-based insertions, with every choice of live, removed and foreign handles, compared with container/list (executed from its own SSA) after every operation in both directions; SList: 0..3 initial elements, 3 operations with symbolic 64-bit indices (all out-of-range values)",
-               "thorough": "4 operations"},
+               "thorough": "the quick jobs plus one more initial element (SList 4, DList 3) with 3 operations; 4 operations did not finish within 20 minutes and are not registered"},
     "outside": ["longer operation sequences", "inserting a *Node that is still linked in a list (not in the property)"],
     "assumptions": [],
     "level_text": "Bounded model checking by symbolic execution: operation sequences and handle choices are enumerated by forking, values and indices are symbolic; container/list is the executable oracle for DList, a slice model for SList. The solver's contribution here is the index arithmetic and feasibility; most of the state space is pointer shape, explored exhaustively within the bound.",
@@ -365,6 +366,8 @@ PROPS["C11"] = {
         J(c11 + "Conc", threads=3, ops=1, init=1, cfg={"Preempt": 2, "Witnesses": 0}),
     ],
     "thorough": [
+        J(c11 + "Conc", threads=2, ops=2, init=2, cfg={"Preempt": 2, "Witnesses": 0, "MaxPaths": 80000000}),
+        J(c11 + "Conc", threads=2, ops=2, init=1, cfg={"Preempt": 3, "Witnesses": 0, "MaxPaths": 80000000}),
         J(c11 + "Conc", threads=2, ops=3, init=2, cfg={"Preempt": 2, "Witnesses": 0, "MaxPaths": 80000000}),
         J(c11 + "Conc", threads=3, ops=2, init=1, cfg={"Preempt": 2, "Witnesses": 0, "MaxPaths": 80000000}),
         J(c11 + "Conc", threads=2, ops=2, init=1, cfg={"Preempt": 4, "Witnesses": 0, "MaxPaths": 80000000}),
@@ -632,4 +635,14 @@ for _id, _p in PROPS.items():
         if _id in _OK:
             _allowed = {(h, l) for h, l, _w in _OK[_id]["jobs"]}
             _extra = [j for j in _extra if (j["harness"], j["label"]) in _allowed]
+        _all_extra = [j for j in _p["thorough"] if j not in _p["quick"]]
         _p["thorough"] = list(_p["quick"]) + _extra
+        # the bounds text of the thorough tier says exactly which deeper jobs are run
+        if isinstance(_p.get("bounds"), dict):
+            _short = lambda j: j["harness"].split(".")[-1] + "[" + j["label"] + "]"
+            _kept = ", ".join(_short(j) for j in _extra) or "none"
+            _drop = ", ".join(_short(j) for j in _all_extra if j not in _extra)
+            _txt = _p["bounds"].get("thorough", "")
+            _p["bounds"]["thorough"] = ("all quick jobs (bounds above) plus the deeper jobs: " + _kept + "." +
+                                        (" Defined but NOT run (did not finish within the 10-20 minute budget of the validation sweep): " + _drop + "." if _drop else "") +
+                                        (" Intended shape of the deeper tier: " + _txt if _txt else ""))
